@@ -21,29 +21,7 @@ fn use1<T>(_a: T) {}
 fn use2<T, U>(_a: T, _b: U) {}
 '''
 
-def ty(k, c):
-    return {"ref": "&%s" % c, "mut": "&mut %s" % c, "optref": "Option<&%s>" % c, "optmut": "Option<&mut %s>" % c}[k]
-
-def payload_def(p):
-    return {"ok": "pub struct P(pub u32);\nfn mkp() -> P { P(1) }\n",
-            "nosend": "pub struct P(pub std::rc::Rc<u32>);\nfn mkp() -> P { P(std::rc::Rc::new(1)) }\n",
-            "nosync": "pub struct P(pub std::cell::Cell<u32>);\nfn mkp() -> P { P(std::cell::Cell::new(1)) }\n"}[p]
-
-def program(c):
-    fam, k1, k2, same, api, pl = c["fam"], c["k1"], c["k2"], c["same"], c["api"], c["payload"]
-    s = PRELUDE
-    if fam == "vv":
-        s += "pub fn f(world: &mut World<Reg, Res>) {\n    for result!(a, b) in world.query(Query::<Views!(%s, %s)>::new()).iter { use2(a, b); }\n}\n" % (ty(k1, "A"), ty(k2, "A" if same else "B"))
-    elif fam == "pv":
-        s += "pub fn f(world: &mut World<Reg, Res>) {\n    world.par_query(Query::<Views!(%s, %s)>::new()).iter.for_each(|result!(a, b)| { use2(a, b); });\n}\n" % (ty(k1, "A"), ty(k2, "A" if same else "B"))
-    elif fam == "qr":
-        s += "pub fn f(world: &mut World<Reg, Res>) {\n    let r = world.query(Query::<Views!(), filter::None, Views!(%s, %s)>::new());\n    let result!(a, b) = r.resources;\n    use2(a, b);\n}\n" % (ty(k1, "RA"), ty(k2, "RA" if same else "RB"))
-    elif fam == "sub":
-        s += "pub fn f(world: &mut World<Reg, Res>, id: Identifier) {\n    let mut r = world.query(Query::<Views!(), filter::None, Views!(), Views!(%s)>::new());\n    let mut e = r.entries.entry(id).unwrap();\n    let a = e.query(Query::<Views!(%s)>::new());\n    use1(a);\n}\n" % (ty(k1, "A"), ty(k2, "A"))
-    elif fam == "sv":
-        def lt(k, c):
-            return {"ref": "&'a %s" % c, "mut": "&'a mut %s" % c, "optref": "Option<&'a %s>" % c, "optmut": "Option<&'a mut %s>" % c}[k]
-        s += '''pub struct Sys;
+SYS_TEMPLATE = '''pub struct Sys;
 impl System for Sys {
     type Views<'a> = Views!(%s);
     type Filter = filter::None;
@@ -55,7 +33,55 @@ impl System for Sys {
 pub fn f(world: &mut World<Reg, Res>) {
     world.run_system(&mut Sys);
 }
-''' % (lt(k1, "A"), lt(k2, "A" if same else "B"))
+'''
+
+def ty(k, c):
+    return {"ref": "&%s" % c, "mut": "&mut %s" % c, "optref": "Option<&%s>" % c, "optmut": "Option<&mut %s>" % c}[k]
+
+def payload_def(p):
+    return {"ok": "pub struct P(pub u32);\nfn mkp() -> P { P(1) }\n",
+            "nosend": "pub struct P(pub std::rc::Rc<u32>);\nfn mkp() -> P { P(std::rc::Rc::new(1)) }\n",
+            "nosync": "pub struct P(pub std::cell::Cell<u32>);\nfn mkp() -> P { P(std::cell::Cell::new(1)) }\n"}[p]
+
+def placed(items, names, place, ident="Identifier"):
+    """view list and result! pattern with an entity identifier view written at `place`"""
+    if place == "id_first":
+        return [ident] + items, ["i"] + names
+    if place == "id_last":
+        return items + [ident], names + ["i"]
+    if place == "id_mid":
+        if len(items) == 1:     # one component view: identifier first (the caller adds resource views)
+            return [ident] + items, ["i"] + names
+        return items[:1] + [ident] + items[1:], names[:1] + ["i"] + names[1:]
+    return items, names
+
+def program(c):
+    fam, k1, k2, same, api, pl = c["fam"], c["k1"], c["k2"], c["same"], c["api"], c["payload"]
+    s = PRELUDE
+    if fam in ("vv", "pv", "ve", "sv") and api != "-":
+        if fam == "sv":
+            lt = lambda k, c: {"ref": "&'a %s" % c, "mut": "&'a mut %s" % c, "optref": "Option<&'a %s>" % c, "optmut": "Option<&'a mut %s>" % c}[k]
+            views, _ = placed([lt(k1, "A")], ["a"], api)
+            return s + SYS_TEMPLATE % (", ".join(views), lt(k2, "A" if same else "B"))
+        if fam == "ve":
+            views, names = placed([ty(k1, "A")], ["a"], api)
+            return s + "pub fn f(world: &mut World<Reg, Res>) {\n    let r = world.query(Query::<Views!(%s), filter::None, Views!(%s), Views!(%s)>::new());\n    for result!(%s) in r.iter { use1(a); }\n}\n" % (", ".join(views), "&mut RA" if api == "id_mid" else "", ty(k2, "A" if same else "B"), ", ".join(names))
+        views, names = placed([ty(k1, "A"), ty(k2, "A" if same else "B")], ["a", "b"], api)
+        if fam == "vv":
+            return s + "pub fn f(world: &mut World<Reg, Res>) {\n    for result!(%s) in world.query(Query::<Views!(%s)>::new()).iter { use2(a, b); }\n}\n" % (", ".join(names), ", ".join(views))
+        return s + "pub fn f(world: &mut World<Reg, Res>) {\n    world.par_query(Query::<Views!(%s)>::new()).iter.for_each(|result!(%s)| { use2(a, b); });\n}\n" % (", ".join(views), ", ".join(names))
+    if fam == "vv":
+        s += "pub fn f(world: &mut World<Reg, Res>) {\n    for result!(a, b) in world.query(Query::<Views!(%s, %s)>::new()).iter { use2(a, b); }\n}\n" % (ty(k1, "A"), ty(k2, "A" if same else "B"))
+    elif fam == "pv":
+        s += "pub fn f(world: &mut World<Reg, Res>) {\n    world.par_query(Query::<Views!(%s, %s)>::new()).iter.for_each(|result!(a, b)| { use2(a, b); });\n}\n" % (ty(k1, "A"), ty(k2, "A" if same else "B"))
+    elif fam == "qr":
+        s += "pub fn f(world: &mut World<Reg, Res>) {\n    let r = world.query(Query::<Views!(), filter::None, Views!(%s, %s)>::new());\n    let result!(a, b) = r.resources;\n    use2(a, b);\n}\n" % (ty(k1, "RA"), ty(k2, "RA" if same else "RB"))
+    elif fam == "sub":
+        s += "pub fn f(world: &mut World<Reg, Res>, id: Identifier) {\n    let mut r = world.query(Query::<Views!(), filter::None, Views!(), Views!(%s)>::new());\n    let mut e = r.entries.entry(id).unwrap();\n    let a = e.query(Query::<Views!(%s)>::new());\n    use1(a);\n}\n" % (ty(k1, "A"), ty(k2, "A"))
+    elif fam == "sv":
+        def lt(k, c):
+            return {"ref": "&'a %s" % c, "mut": "&'a mut %s" % c, "optref": "Option<&'a %s>" % c, "optmut": "Option<&'a mut %s>" % c}[k]
+        s += SYS_TEMPLATE % (lt(k1, "A"), lt(k2, "A" if same else "B"))
     elif fam == "ve":
         s += "pub fn f(world: &mut World<Reg, Res>) {\n    let r = world.query(Query::<Views!(%s), filter::None, Views!(), Views!(%s)>::new());\n    for result!(a) in r.iter { use1(a); }\n}\n" % (ty(k1, "A"), ty(k2, "A" if same else "B"))
     elif fam == "ee":
